@@ -29,8 +29,10 @@ Lemma from_hmsf_ok h m s f fp :
 Proof.
   intros H1 H2 H3 H4 H5. unfold from_hmsf. rewrite H1, H2, H3, H4. cbn [negb guard bind].
   assert (10 ^ fp <? f = false) as -> by lia.
-  assert (ok_fraction (f * 10 ^ (6 - fp)) = true) as ->; [|reflexivity].
-  destruct (fp_cases fp H4) as [->|[->|[->|[->|[->| ->]]]]]; inr; pow10; lia.
+  assert (Hb : f * 10 ^ (6 - fp) <= 999999)
+    by (destruct (fp_cases fp H4) as [->|[->|[->|[->|[->| ->]]]]]; pow10; lia).
+  assert (4294967295 <? f * 10 ^ (6 - fp) = false) as -> by lia.
+  assert (ok_fraction (f * 10 ^ (6 - fp)) = true) as -> by (inr; lia). reflexivity.
 Qed.
 
 Lemma lead_digits_app l r : forallb is_digit l = true -> lead_digits (l ++ r) = (length l + lead_digits r)%nat.
@@ -54,14 +56,14 @@ Proof.
   - rewrite read_number_padk by (try lia; inr; cbn; lia). cbn [bind].
     destruct (short 2 rest) eqn:Es.
     + rewrite from_h_ok by exact Hv. reflexivity.
-    + destruct (read_number_nd rest Hnd Es) as [e ->]. rewrite from_h_ok by exact Hv. reflexivity.
+    + destruct (read_number_nd 255 rest Hnd Es) as [e ->]. rewrite from_h_ok by exact Hv. reflexivity.
   - apply andb_true_iff in Hv as [Hh Hm].
     rewrite read_number_padk by (try lia; inr; cbn; lia). cbn [bind].
     rewrite short_padk by lia. rewrite firstn_padk, skipn_padk.
     rewrite read_number_padk by (try lia; inr; cbn; lia).
     destruct (short 2 rest) eqn:Es.
     + rewrite from_hm_ok by assumption. reflexivity.
-    + destruct (read_number_nd rest Hnd Es) as [e ->]. rewrite from_hm_ok by assumption. reflexivity.
+    + destruct (read_number_nd 255 rest Hnd Es) as [e ->]. rewrite from_hm_ok by assumption. reflexivity.
   - apply andb_true_iff in Hv as [Hv Hs]. apply andb_true_iff in Hv as [Hh Hm].
     rewrite read_number_padk by (try lia; inr; cbn; lia). cbn [bind].
     rewrite short_padk by lia. rewrite firstn_padk, skipn_padk.
@@ -86,7 +88,10 @@ Proof.
     rewrite lead_digits_app by apply padk_digits. rewrite padk_length, lead_digits_rest by exact Hr.
     replace (Nat.min 6 (N.to_nat fp + 0)) with (N.to_nat fp) by lia.
     rewrite firstn_padk, skipn_padk.
-    rewrite read_number_padk; [|lia|rewrite N2Nat.id; lia]. cbn [bind].
+    assert (Hf6 : f < 1000000)
+      by (destruct (fp_cases fp Hfp) as [->|[->|[->|[->|[->| ->]]]]]; pow10; lia).
+    rewrite read_number_padk; [|lia|rewrite N2Nat.id; lia|lia]. cbn [bind].
+    assert ((255 <? N.to_nat fp)%nat = false) as -> by lia.
     rewrite N2Nat.id. rewrite from_hmsf_ok by assumption. reflexivity.
 Qed.
 
@@ -140,10 +145,10 @@ Proof.
   destruct (z <? 0)%Z; reflexivity.
 Qed.
 
-Lemma read_number_nondigit c l : is_digit c = false -> exists e, read_number (c :: l) = Err e.
+Lemma read_number_nondigit max c l : is_digit c = false -> exists e, read_number max (c :: l) = Err e.
 Proof.
-  intros H. unfold read_number.
-  destruct ((length (c :: l) =? 0)%nat || (9 <? length (c :: l))%nat); [eauto|].
+  intros H. unfold read_number, read_digits.
+  destruct ((length (c :: l) =? 0)%nat || (9 <? length (c :: l))%nat); [cbn; eauto|].
   cbn [forallb]. rewrite H. cbn. eauto.
 Qed.
 
@@ -151,7 +156,7 @@ Lemma parse_time_nondigit c r : is_digit c = false -> exists e, parse_time_parti
 Proof.
   intros H. unfold parse_time_partial. destruct (short 2 (c :: r)); [eauto|].
   change (firstn 2 (c :: r)) with (c :: firstn 1 r).
-  destruct (read_number_nondigit c (firstn 1 r) H) as [e ->]. cbn. eauto.
+  destruct (read_number_nondigit 255 c (firstn 1 r) H) as [e ->]. cbn. eauto.
 Qed.
 
 Lemma parse_time_zone_fails z :
@@ -178,10 +183,10 @@ Proof.
   cbn [bind].
   destruct t as [t|]; cbn [otime_enc app].
   - apply andb_true_iff in Ht as [Ht Hp].
-    rewrite parse_time_enc by (try assumption; apply ozone_rest_ok, Hz').
+    rewrite parse_time_enc by (try assumption; apply ozone_rest_ok, Hz'). cbn [bind].
     rewrite parse_ozone_enc by exact Hz'. cbn [bind].
     unfold from_date_and_time. rewrite Hp. reflexivity.
-  - destruct (parse_time_zone_fails z Hz') as [e ->].
+  - destruct (parse_time_zone_fails z Hz') as [e ->]. cbn [bind].
     rewrite parse_ozone_enc by exact Hz'. reflexivity.
 Qed.
 
